@@ -8,8 +8,11 @@ Two engines per generated case (AGENT_GUIDE rule 5):
     the real objects returned, against a reference memory semantics kept here
     (last value written per normalised pin, current mode, ...), exact rational
     arithmetic (fractions.Fraction) for map/sleep, rising edges for the button, ...
-Reads of a pin that is outside the guard of C20_unwritten_default_partial (listed finding
-F-C20-pullup-stale) are compared with the model only, never judged by the oracle.
+Every read is judged: there is no guard.  The former finding F-C20-pullup-stale (pin_mode stored the
+pull-up level, so an unwritten pin kept reading HIGH after leaving INPUT_PULLUP) is repaired in /repo
+(known_findings.d/C20.json kind "fixed"); its witness is replayed first on every run and, should it fail
+again, reported as a VIOLATION (never as a KNOWN-FINDING).  The generators draw pull-up-then-other-mode
+histories on purpose (the region the finding's guard used to exclude) and count the reads that fall there.
 """
 from __future__ import annotations
 
@@ -22,7 +25,7 @@ from harness import common as C
 META = {
     "id": "C20",
     "technique": "Coq proof (induction over call histories of Gallina models of Core/Utils/Button/Potentiometer/Ultrasonic/SerialMonitor; Q arithmetic by field/lra) + extracted-model correspondence with the real modules + reference-memory oracle on the real modules",
-    "level_text": "Theorems C20_* (coq/Props/C20.v) are proved for all call histories, pins, numeric arguments and provider sample sequences of Gallina models of Reduino.Core, Utils.map/sleep, Button, Potentiometer, Ultrasonic and SerialMonitor.write; the pull-up default is proved only under an explicit guard (C20_unwritten_default_partial, guard exact) and refuted outside it (C20_pullup_then_output_refuted, listed finding). The extracted models are run against the real modules on exhaustive short and seeded random histories, numeric grids and sample sequences; floats are exact rationals in the model (results compared to 1e-9 relative).",
+    "level_text": "Theorems C20_* (coq/Props/C20.v) are proved for all call histories, pins, numeric arguments and provider sample sequences of Gallina models of Reduino.Core, Utils.map/sleep, Button, Potentiometer, Ultrasonic and SerialMonitor.write; digital_read is proved to be the property's reference memory for every history (C20_unwritten_default, unconditional since the repair of Core.pin_mode; C20_unwritten_high_iff_pullup, C20_mode_decides_unwritten: an unwritten pin reads HIGH exactly while its current mode is INPUT_PULLUP). The extracted models are run against the real modules on exhaustive short and seeded random histories, numeric grids and sample sequences; floats are exact rationals in the model (results compared to 1e-9 relative).",
     "level_note": "Trusted: Coq kernel, extraction (ExtrOcamlBasic), OCaml driver, harness/impl/c20_impl.py (fake serial backend, recording sleeper, provider callables), CPython as the meaning of str()/round()/bool(). The theorems are about the models; the correspondence check bounds their distance from the code. Not modelled: str() of floats/objects, non-ASCII isdigit/isspace/upper, IEEE specials, pins that are neither int nor str, SerialMonitor.read, pyserial.",
     "design_ref": "DESIGN.md section 4 C20, Appendix A.1 and A.5",
 }
@@ -129,27 +132,34 @@ def norm(p):
 
 
 class RefMem:
+    """last value written per normalised pin, current mode; `left_pullup` only feeds the statistics:
+    pins that were put in INPUT_PULLUP while unwritten (the region the former finding's guard excluded
+    is: such a pin, still unwritten, read while its current mode is not INPUT_PULLUP)."""
+
     def __init__(self):
-        self.d, self.a, self.mode, self.stale = {}, {}, {}, set()
+        self.d, self.a, self.mode, self.was_pullup = {}, {}, {}, set()
 
     def expect(self, op):
-        """(expected value, inside guard) for a read; None for other calls."""
+        """expected value of a read; None for other calls."""
         k = norm(op[1])
         if op[0] == "digital_read":
             if k in self.d:
-                return self.d[k], True
-            pull = self.mode.get(k) == PULLUP
-            return (1 if pull else 0), not (k in self.stale and not pull)
+                return self.d[k]
+            return 1 if self.mode.get(k) == PULLUP else 0
         if op[0] == "analog_read":
-            return self.a.get(k, 0), True
+            return self.a.get(k, 0)
         return None
+
+    def formerly_excluded(self, op):
+        k = norm(op[1])
+        return op[0] == "digital_read" and k not in self.d and k in self.was_pullup and self.mode.get(k) != PULLUP
 
     def apply(self, op):
         k = norm(op[1])
         if op[0] == "pin_mode":
             self.mode[k] = op[2]
             if op[2] == PULLUP and k not in self.d:
-                self.stale.add(k)
+                self.was_pullup.add(k)
         elif op[0] == "digital_write":
             self.d[k] = 1 if op[2] else 0
         elif op[0] == "analog_write" and op[2] is not None:
@@ -191,25 +201,24 @@ def res_matches(mres, ires):
     return isinstance(v, int) and v == mres[1]
 
 
-def eval_core(ctx, st, case, r, m, oracle=True, ignore_guard=False):
+def eval_core(ctx, st, case, r, m, oracle=True):
     ops = case[1]
     ref = RefMem()
     if r.get("odd_keys"):
         ctx.fail("Core dict holds a key that is neither int nor str", case, "int/str keys", r["odd_keys"], key="core-odd-key")
     for i, (op, ir) in enumerate(zip(ops, r["results"])):
-        exp = ref.expect(op)
+        want = ref.expect(op)
         st.n["core_op:" + op[0]] += 1
         if ir[0] == "raise":
             st.n["core_raise:" + str(ir[1])] += 1
-        if exp is not None:
-            want, inside = exp
-            if m is not None:
-                mg, mr = m[3][i]
-                if mr != want or bool(mg) != inside:
-                    ctx.disagree("reference semantics: harness RefMem vs Coq history/ref_dread/guard", case, m[3][i], [inside, want])
-            if not inside and not ignore_guard:
-                st.n["core_reads_outside_guard"] += 1
-            elif oracle:
+        if want is not None:
+            if m is not None and m[3][i] != [want]:
+                ctx.disagree("reference semantics: harness RefMem vs Coq history/ref_dread/ref_aread", case, m[3][i], [want])
+            if ref.formerly_excluded(op):
+                st.n["core_reads_unwritten_after_leaving_pullup"] += 1
+            elif op[0] == "digital_read" and norm(op[1]) not in ref.d and ref.mode.get(norm(op[1])) == PULLUP:
+                st.n["core_reads_unwritten_in_pullup"] += 1
+            if oracle:
                 st.n["core_reads_judged"] += 1
                 if ir[0] != "ok" or not isinstance(ir[1], int) or ir[1] != want:
                     what = ("digital_read" if op[0] == "digital_read" else "analog_read") + \
@@ -219,10 +228,7 @@ def eval_core(ctx, st, case, r, m, oracle=True, ignore_guard=False):
             if op[0] == "analog_read" and oracle and ir[0] == "ok" and not (isinstance(ir[1], int) and 0 <= ir[1] <= 255):
                 ctx.fail("analog_read returned a value outside 0..255", {"case": case, "call_index": i}, "0..255", ir, key="core-clamp")
         if m is not None and not res_matches(m[1][i], ir):
-            # outside the guard the model reproduces the listed defect; an implementation that
-            # returns what the property demands there (a repaired pin_mode) is not a disagreement
-            if not (exp is not None and not exp[1] and ir[0] == "ok" and isinstance(ir[1], int) and ir[1] == exp[0]):
-                ctx.disagree(f"Core call {i} {op}: model vs implementation", case, m[1][i], ir)
+            ctx.disagree(f"Core call {i} {op}: model vs implementation", case, m[1][i], ir)
         if not (op[0] == "analog_write" and ir[0] == "raise"):
             ref.apply(op)
     if oracle:
@@ -238,13 +244,7 @@ def eval_core(ctx, st, case, r, m, oracle=True, ignore_guard=False):
               "analog": {dec_pin(p): v for p, v in m[2][2]}}
         is_ = {name: {k: v for k, v in r["state"][name]} for name in ("modes", "digital", "analog")}
         if ms != is_:
-            # the stored pull-up level of a never-written pin is the mechanism of the listed defect:
-            # an implementation that keeps no such entry (and answers from the mode) is equivalent
-            for k in ref.stale:
-                if k not in ref.d and k not in is_["digital"]:
-                    ms["digital"].pop(k, None)
-            if ms != is_:
-                ctx.disagree("Core dicts after the history: model vs implementation", case, ms, is_)
+            ctx.disagree("Core dicts after the history: model vs implementation", case, ms, is_)
 
 
 def eval_map(ctx, st, case, r, m, oracle=True):
@@ -501,9 +501,46 @@ def gen_core(rng, thorough):
         if i % 2 == 0:
             ops += all_probes
         cases.append(["core", ops, PINS if i % 3 == 0 else None])
+    # (e) the region the guard of the former finding F-C20-pullup-stale excluded: a never-written pin is put in
+    #     INPUT_PULLUP (possibly several times, through aliases), then in another mode, and read - with calls that
+    #     must not matter in between (other pins, analog writes and reads of the same pin), then pulled up again,
+    #     then written, then re-configured.  Exhaustive over pins x leaving-modes x fillers; then seeded toggling.
+    n_before_e = len(cases)
+    fillers = [[], [["analog_write", "{p}", 200]], [["digital_read", "{p}"]], [["pin_mode", "{o}", PULLUP], ["digital_write", "{o}", 1]],
+               [["digital_read", "{p}"], ["analog_read", "{p}"], ["pin_mode", "{p}", PULLUP]]]
+    for p in PINS:
+        al = ALIASES.get(norm(p), [p]) if isinstance(norm(p), int) else [p]
+        other = "A1" if p != "A1" else 13
+        for mode in ("OUTPUT", "INPUT", "bogus", "", "input_pullup", "INPUT_PULLUP "):
+            for fi, fill in enumerate(fillers):
+                mid = [[o[0], p if o[1] == "{p}" else other] + o[2:] for o in fill]
+                q, q2 = al[(fi + 1) % len(al)], al[(fi + 2) % len(al)]
+                ops = [["pin_mode", p, PULLUP], ["digital_read", q]] + mid + [["pin_mode", q, mode], ["digital_read", p], ["digital_read", q2],
+                       ["pin_mode", q2, PULLUP], ["digital_read", p], ["pin_mode", p, mode], ["digital_read", q],
+                       ["digital_write", q, fi % 2], ["digital_read", p], ["pin_mode", p, PULLUP], ["digital_read", q2],
+                       ["pin_mode", q, mode], ["digital_read", p]]
+                cases.append(["core", ops, [p, other, 0] if fi % 2 else None])
+    for i in range(4000 if thorough else 400):
+        hot = rng.sample(PINS, rng.randint(1, 3))
+        hot += [a for h in hot if isinstance(norm(h), int) for a in ALIASES[norm(h)]]
+        ops = []
+        for _ in range(rng.randint(2, 16)):
+            p = rng.choice(hot)
+            k = rng.random()
+            if k < 0.45:
+                ops.append(["pin_mode", p, PULLUP if rng.random() < 0.5 else rng.choice(MODES)])
+            elif k < 0.55:
+                ops.append(["digital_write", p, rng.choice(DVALS)])
+            elif k < 0.62:
+                ops.append(["analog_write", p, rng.choice(AVALS)])
+            else:
+                ops.append(["digital_read", p])
+        ops += [["digital_read", h] for h in hot]
+        cases.append(["core", ops, hot[:3] if i % 4 == 0 else None])
+    n_pull = len(cases) - n_before_e
     # (d) alias variants: the same history with pins respelled ("7" / "07" / 7): must behave identically
     pairs = []
-    base = list(range(0, n_exh, 7 if thorough else 5)) + list(range(len(cases) - n_rand, len(cases), 2))
+    base = list(range(0, n_exh, 7 if thorough else 5)) + list(range(n_before_e - n_rand, n_before_e, 2)) + list(range(n_before_e, len(cases), 3))
     for idx in base:
         c = cases[idx]
         v = alias_variant(c[1], rng=rng if idx >= n_exh else None)
@@ -662,10 +699,45 @@ def shrink_core(case, budget=12):
 # run
 # ----------------------------------------------------------------------------
 
+def listed_findings(ctx):
+    findings = ctx.findings
+    if not findings:      # not merged into known_findings.json yet: read this work package's own list
+        own = C.VERIF / "known_findings.d" / "C20.json"
+        if own.exists():
+            import json
+            findings = [e for e in json.loads(own.read_text()) if e.get("property") == "C20"]
+    return findings
+
+
+def replay_witness(f):
+    """run the witness history of a listed entry on the real code; -> (case, impl result, oracle failures)"""
+    case = ["core", f["witness"]["ops"], None]
+    r = C.run_impl("c20_impl.py", {"cases": [case]})[0]
+    probe = C.Ctx("C20", "quick", 0)
+    probe.findings = []
+    eval_core(probe, Stats(), case, r, None)
+    return case, r, probe.failures
+
+
 def run(ctx: C.Ctx):
     rng = ctx.rng
     thorough = ctx.tier == "thorough"
     st = Stats()
+
+    # repaired defects (kind "fixed") suppress nothing: their witnesses are replayed first, and a witness that
+    # fails again is a VIOLATION whose replay is that witness (same key as the generated cases of its class, so
+    # the witness is the one replay reported for the class)
+    findings = listed_findings(ctx)
+    n_fixed_replayed = 0
+    for f in findings:
+        if f.get("kind") != "fixed":
+            continue
+        n_fixed_replayed += 1
+        case, r, fails = replay_witness(f)
+        if fails:
+            ctx.fail(f"{f.get('fixed', f['id'])} -- the repaired defect {f['id']} is back: {fails[0]['what']}",
+                     {"case": case, "call_index": fails[0]["case"]["call_index"], "witness_of": f["id"]},
+                     f["witness"].get("expected"), [x[1] if x[0] == "ok" else x for x in r["results"]], key=fails[0]["key"])
 
     core_cases, alias_pairs = gen_core(rng, thorough)
     groups = {
@@ -717,22 +789,11 @@ def run(ctx: C.Ctx):
                 pass
             break
 
-    # known findings: replay every listed witness on the real code, judged without the guard
-    findings = ctx.findings
-    if not findings:      # not merged into known_findings.json yet: read this work package's own list
-        own = C.VERIF / "known_findings.d" / "C20.json"
-        if own.exists():
-            import json
-            findings = [e for e in json.loads(own.read_text()) if e.get("property") == "C20"]
+    # known findings still open (none at present): replay every listed witness on the real code
     for f in findings:
         if f.get("kind") == "fixed":
             continue
-        case = ["core", f["witness"]["ops"], None]
-        r = C.run_impl("c20_impl.py", {"cases": [case]})[0]
-        probe = C.Ctx("C20", ctx.tier, ctx.seed)
-        probe.findings = []
-        eval_core(probe, Stats(), case, r, None, ignore_guard=True)
-        if probe.failures:
+        if replay_witness(f)[2]:
             ctx.known(f"{f['id']}: {f['what']}")
 
     def nontrivial(c):
@@ -752,14 +813,14 @@ def run(ctx: C.Ctx):
     ctx.coverage.update({
         "evaluations": len(cases),
         "distinct_nontrivial": len({repr(c) for c in cases if nontrivial(c)}),
-        "rule": "Core: all histories of length <=2 (quick: + 3000 sampled of the 13824 length-3 ones; thorough: all) over a 24-call boundary alphabet, each followed by 8 probe reads; every single call of the full alphabet (11 pins x modes/values) from 4 start states followed by reads of all pins; seeded random histories of length <=20 (hot-pin biased, aliases mixed); respelled copies for the alias oracle. map: full 5-fold product of a small boundary set + seeded draws from a 26-value pool with forced zero spans, end points, and narrow non-zero source windows at large magnitude (1e9..1e12, widths 2^-20..500) or tiny ones at the origin. sleep: boundary list + seeded values. Button: all bool sequences of length <=8 through the provider and through set_pressed + seeded long mixed histories. pot/ultra: constructor grids x boundary provider values. serial: constructor grid, values x newlines, seeded write/close/connect histories. Non-trivial = a Core history in which some pin is read after a call that addressed it / a button history with at least one poll / every other case.",
+        "rule": "Core: all histories of length <=2 (quick: + 3000 sampled of the 13824 length-3 ones; thorough: all) over a 24-call boundary alphabet, each followed by 8 probe reads; every single call of the full alphabet (11 pins x modes/values) from 4 start states followed by reads of all pins; seeded random histories of length <=20 (hot-pin biased, aliases mixed); pull-up histories (11 pins x 6 leaving modes x 5 fillers: INPUT_PULLUP, read, filler, other mode through an alias, reads, pull-up again, write, re-configure; plus seeded pin_mode-heavy toggling histories) - the region the former finding's guard excluded, counted as core_reads_unwritten_after_leaving_pullup; respelled copies for the alias oracle. map: full 5-fold product of a small boundary set + seeded draws from a 26-value pool with forced zero spans, end points, and narrow non-zero source windows at large magnitude (1e9..1e12, widths 2^-20..500) or tiny ones at the origin. sleep: boundary list + seeded values. Button: all bool sequences of length <=8 through the provider and through set_pressed + seeded long mixed histories. pot/ultra: constructor grids x boundary provider values. serial: constructor grid, values x newlines, seeded write/close/connect histories. Non-trivial = a Core history in which some pin is read after a call that addressed it / a button history with at least one poll / every other case.",
         "samples": [core_cases[30], core_cases[-1], groups["map"][17], groups["sleep"][3], groups["button"][700], groups["pot"][2], groups["ultra"][5], groups["serial"][60]],
         "distribution": {"cases_per_submodel": {k: len(v) for k, v in groups.items()},
                          "core_history_lengths(bucketed by 5)": dict(sorted(sizes.items())),
                          "alias_pairs_compared": n_alias,
                          "counts": dict(sorted(st.n.items()))},
         "exhaustive": False,
-        "guard": "digital_read of a never-written pin is judged by the oracle only if the pin was not put in INPUT_PULLUP (while unwritten) before its current non-pull-up mode (Coq: guard (history (normalise p) ops) = true, proved exact); outside it: listed finding F-C20-pullup-stale. Numbers: finite ints/floats/bools (None only for the raise paths); pins: int or ASCII str; text: ASCII for strip/upper/isdigit.",
+        "guard": "none for Core: every read of every generated history is judged (the guard of the former finding F-C20-pullup-stale is gone with the repair of Core.pin_mode; its witness is replayed first on every run, fixed entries replayed: " + str(n_fixed_replayed) + "). Numbers: finite ints/floats/bools (None only for the raise paths); pins: int or ASCII str; text: ASCII for strip/upper/isdigit.",
         "unmodelled": ["str() of floats and arbitrary objects in SerialMonitor.write", "SerialMonitor.read and pyserial itself",
                        "binary64 rounding inside Utils.map / sleep / float() (model is exact over Q; compared to 1e-9 relative)",
                        "IEEE specials (NaN, inf, -0.0) and ints too large for float()",
